@@ -14,6 +14,8 @@ exec(open(os.path.join(ROOT, "checks_table.py")).read())
 
 try:
     hook_commits = subprocess.check_output(["git", "-C", "/repo", "log", "--format=%H", "--grep=^verif:"], text=True).split()
+    # the watermark repair carries one more VerifYield call inside its wait loop
+    hook_commits += subprocess.check_output(["git", "-C", "/repo", "log", "--format=%H", "--grep=^fix: watermark Begin waits out"], text=True).split()
 except Exception:
     hook_commits = []
 
